@@ -173,13 +173,17 @@ Fixpoint dedup_keys (seen l : list Z) : list Z :=
 (* ---------- whole transactions: each input has its own digest, hence its own relation ---------- *)
 Section Tx.
   Context {B : Type}.
+  (* si_ht = Input.hash_type: the hash type Transaction.verify asks the digest for (SIGHASH_ALL on every input built
+     through the API; set by the parse / constructor paths from the hash-type byte the signatures carry) *)
   Record sinput := { si_segwit : bool; si_keys : list Z; si_m : nat; si_sigs : list (sg B); si_valid : option bool;
-                     si_hash_ok : bool }.
+                     si_hash_ok : bool; si_ht : Z }.
   Variable svi : nat -> B -> Z -> bool.
   Variable mki : nat -> Z -> B.
+  Variable htb : B -> Z.            (* the hash-type byte a serialized signature carries *)
 
   Definition with_sigs (x : sinput) (l : list (sg B)) : sinput :=
-    {| si_segwit := si_segwit x; si_keys := si_keys x; si_m := si_m x; si_sigs := l; si_valid := si_valid x; si_hash_ok := si_hash_ok x |}.
+    {| si_segwit := si_segwit x; si_keys := si_keys x; si_m := si_m x; si_sigs := l; si_valid := si_valid x;
+       si_hash_ok := si_hash_ok x; si_ht := si_ht x |}.
 
   (*  for tid in tids: ... if not n_signs: continue  (fix C02-4, was: break) ... ;
       an exception leaves the inputs before tid updated *)
@@ -221,7 +225,8 @@ Section Tx.
   (* Transaction.verify with its effects (after fix C02-1): every Input.valid is reset to None first; the
      inputs are visited in order up to the first failing one; a visited input gets valid = True / False *)
   Definition set_valid (v : option bool) (x : sinput) : sinput :=
-    {| si_segwit := si_segwit x; si_keys := si_keys x; si_m := si_m x; si_sigs := si_sigs x; si_valid := v; si_hash_ok := si_hash_ok x |}.
+    {| si_segwit := si_segwit x; si_keys := si_keys x; si_m := si_m x; si_sigs := si_sigs x; si_valid := v;
+       si_hash_ok := si_hash_ok x; si_ht := si_ht x |}.
 
   Fixpoint lib_tx_verify_run_from (i : nat) (ins : list sinput) : bool * list sinput :=
     match ins with
@@ -238,16 +243,37 @@ Section Tx.
   Definition lib_tx_verify_run (ins : list sinput) : bool * list sinput :=
     lib_tx_verify_run_from 0 (map (set_valid None) ins).
 
+  (* Input.hash_type after the parse path: the hash type of the FIRST signature found (Input.__init__ for the
+     scriptSig of legacy inputs; Transaction.parse for witness signatures — fix C02-5; before it [fixed = false] a
+     segwit input kept SIGHASH_ALL whatever its witness signature said) *)
+  Definition lib_parsed_ht (fixed segwit : bool) (sigs : list (sg B)) : Z :=
+    match sigs with
+    | [] => 1%Z
+    | s :: _ => if segwit && negb fixed then 1%Z else htb (body s)
+    end.
+
+  (* Input.hash_type after Input.__init__(signatures=[...]):  for sig in signatures: if sig.hash_type: self.hash_type = sig.hash_type *)
+  Definition lib_ctor_ht (sigs : list (sg B)) : Z :=
+    fold_left (fun h s => if Z.eqb (htb (body s)) 0 then h else htb (body s)) sigs 1%Z.
+
   (* the copy obtained by Transaction.parse(t.raw()).  In a transaction serialized in segwit form (some input
      is segwit) Input.parse classes every input with an empty unlocking script as segwit; a parsed segwit
      input without witness has no script code: signature_segwit raises "Redeem script missing" and
      Transaction.verify returns False before Input.verify is reached *)
-  Definition lib_roundtrip_input (tx_segwit : bool) (x : sinput) : sinput :=
+  Definition lib_roundtrip_input (fixed tx_segwit : bool) (x : sinput) : sinput :=
     let l := lib_roundtrip_sigs (si_m x) (si_sigs x) in
     {| si_segwit := si_segwit x; si_keys := si_keys x; si_m := si_m x; si_sigs := l; si_valid := None;
-       si_hash_ok := si_hash_ok x && (negb tx_segwit || match l with [] => false | _ => true end) |}.
-  Definition lib_roundtrip_tx (ins : list sinput) : list sinput :=
-    map (lib_roundtrip_input (existsb si_segwit ins)) ins.
+       si_hash_ok := si_hash_ok x && (negb tx_segwit || match l with [] => false | _ => true end);
+       si_ht := lib_parsed_ht fixed (si_segwit x) l |}.
+  Definition lib_roundtrip_tx (fixed : bool) (ins : list sinput) : list sinput :=
+    map (lib_roundtrip_input fixed (existsb si_segwit ins)) ins.
+
+  (* the copy obtained by building the inputs anew from serialized signatures (Transaction.add_input(keys=...,
+     signatures=[DER || hash-type byte, ...])): all signatures, without public key *)
+  Definition lib_ctor_input (x : sinput) : sinput :=
+    let l := map untag (si_sigs x) in
+    {| si_segwit := si_segwit x; si_keys := si_keys x; si_m := si_m x; si_sigs := l; si_valid := None;
+       si_hash_ok := si_hash_ok x; si_ht := lib_ctor_ht l |}.
 
   (* the view Transaction.verify decides on (ties this file to Model/VerifyInput.v) *)
   Definition view (x : sinput) : @vinput B Z :=
@@ -256,14 +282,37 @@ Section Tx.
 End Tx.
 
 (* ---------- the concrete instance run by the correspondence driver ----------
-   body = (curve point id, digest id at signing time, variant): variant 0 = as produced by sign(),
-   1 = s replaced by n - s (another valid signature of the same digest), >= 2 = r or s changed by one.
+   body = (curve point id, digest id at signing time, variant, hash type signed for, hash-type byte carried):
+   variant 0 = as produced by sign(), 1 = s replaced by n - s (another valid signature of the same digest),
+   >= 2 = r or s changed by one.  The last two components are 1 (SIGHASH_ALL) for everything Transaction.sign
+   produces; they differ after the hash-type byte of a serialized signature was changed.
    key id 2p / 2p+1 = compressed / uncompressed public byte string of point p.                        *)
-Definition cbody := (Z * Z * Z)%type.
+Definition cbody := (Z * Z * Z * Z * Z)%type.
 Definition point_of (k : Z) : Z := Z.div k 2.
-Definition c_sv (epoch : Z) (b : cbody) (k : Z) : bool :=
-  let '(p, e, v) := b in Z.eqb p (point_of k) && Z.eqb e epoch && Z.ltb v 2.
-Definition c_mk (epoch : Z) (k : Z) : cbody := (point_of k, epoch, 0%Z).
+Definition c_carried (b : cbody) : Z := let '(_, _, _, _, hc) := b in hc.
+(* hash types the legacy serializer treats like SIGHASH_ALL (Model/Sighash.v legacy_all_like) *)
+Definition c_all_like (ht : Z) : bool :=
+  Z.eqb (Z.land ht 128) 0 && negb (Z.eqb (Z.land ht 31) 2) && negb (Z.eqb (Z.land ht 31) 3).
+(* is the digest the LIBRARY computes for a legacy input of a transaction with n inputs and hash type ht the consensus
+   digest?  Transaction.raw(sign_id, hash_type, 'legacy') serializes like SIGHASH_ALL whatever ht says (C01 known finding
+   legacy_non_all_hashtype): right for the types treated like ALL, and for ANYONECANPAY | ALL-like when the signed
+   input is the only one *)
+Definition c_legacy_digest_ok (n : nat) (ht : Z) : bool :=
+  negb (Z.eqb (Z.land ht 31) 2) && negb (Z.eqb (Z.land ht 31) 3) && (Z.eqb (Z.land ht 128) 0 || Nat.eqb n 1).
+(* validity under the digest the LIBRARY computes for an input in state [epoch] for hash type [ht]: that digest is the
+   consensus digest for [ht] when [conforming] (every BIP143 input, C01 digest_ok; legacy inputs as above), otherwise
+   the digest of nothing anybody signs *)
+Definition c_sv_at (conforming : bool) (epoch ht : Z) (b : cbody) (k : Z) : bool :=
+  let '(p, e, v, hm, _) := b in
+  Z.eqb p (point_of k) && Z.eqb e epoch && Z.ltb v 2 && Z.eqb hm ht && conforming.
+Definition c_sv (epoch : Z) (b : cbody) (k : Z) : bool := c_sv_at true epoch 1 b k.
+(* validity under the CONSENSUS digest for the hash-type byte the signature carries (the oracle matrix) *)
+Definition c_cons (epoch : Z) (b : cbody) (k : Z) : bool :=
+  let '(p, e, v, hm, hc) := b in Z.eqb p (point_of k) && Z.eqb e epoch && Z.ltb v 2 && Z.eqb hm hc.
+Definition c_mk (epoch : Z) (k : Z) : cbody := (point_of k, epoch, 0%Z, 1%Z, 1%Z).
+(* a signature made by somebody else over the consensus digest for hash type ht, carrying ht *)
+Definition c_mk_ht (epoch ht : Z) (k : Z) : cbody := (point_of k, epoch, 0%Z, ht, ht).
+Definition c_set_carried (ht : Z) (b : cbody) : cbody := let '(p, e, v, hm, _) := b in (p, e, v, hm, ht).
 
 Inductive op :=
 | OSign (target : option nat) (replace fail_unknown : bool) (signers : list Z)
@@ -276,7 +325,10 @@ Inductive op :=
 | OSwap (i pos : nat)
 | OIns (i pos : nat) (k : Z)
 | OVar (i pos : nat) (v : Z)
-| OUntag (i pos : nat).
+| OUntag (i pos : nat)
+| OPlace (i : nat) (ht : Z) (ks : list Z)                 (* input i carries third-party signatures for hash type ht *)
+| ORoundHt (patches : list (nat * nat * Z))               (* parse(raw with hash-type bytes changed).verify() *)
+| OCtor (patches : list (nat * nat * Z)).                 (* inputs rebuilt from serialized signatures, verify() *)
 
 Inductive obs :=
 | ObsSign (code : Z)
@@ -289,7 +341,7 @@ Definition epoch_at (es : list Z) (i : nat) : Z := nth i es 0%Z.
 
 Definition matrix_of (es : list Z) (ins : list (@sinput cbody)) : list (list (list bool)) :=
   map (fun ix => let '(i, x) := ix in
-         map (fun s => map (fun k => c_sv (epoch_at es i) (body s) k) (si_keys x)) (si_sigs x))
+         map (fun s => map (fun k => c_cons (epoch_at es i) (body s) k) (si_keys x)) (si_sigs x))
       (combine (seq 0 (length ins)) ins).
 
 Fixpoint update_at {A : Type} (i : nat) (f : A -> A) (l : list A) : list A :=
@@ -320,9 +372,25 @@ Definition edit_sigs (f : nat -> list (sg cbody) -> list (sg cbody)) (pos : nat)
   | l => with_sigs x (f (Nat.modulo pos (length l)) l)
   end.
 
-Definition run_op (st : cstate) (o : op) : cstate * obs :=
+(* the relation Transaction.verify uses for the input at position i: its digest for ITS hash type *)
+Definition c_svi (es : list Z) (ins : list (@sinput cbody)) (i : nat) : cbody -> Z -> bool :=
+  match nth_error ins i with
+  | Some x => c_sv_at (si_segwit x || c_legacy_digest_ok (length ins) (si_ht x)) (epoch_at es i) (si_ht x)
+  | None => fun _ _ => false
+  end.
+
+(* change the hash-type byte carried by signature [pos] of input [i] (no-op when there is no such signature) *)
+Definition patch_ht (p : nat * nat * Z) (ins : list (@sinput cbody)) : list (@sinput cbody) :=
+  let '(i, pos, ht) := p in
+  update_at i (fun x => with_sigs x
+     match nth_error (si_sigs x) pos with
+     | Some s => set_nth pos {| body := c_set_carried ht (body s); tag := tag s |} (si_sigs x)
+     | None => si_sigs x
+     end) ins.
+
+Definition run_op (fixed : bool) (st : cstate) (o : op) : cstate * obs :=
   let es := cs_epochs st in
-  let svi := fun i => c_sv (epoch_at es i) in
+  let svi := c_svi es (cs_ins st) in
   let mki := fun i => c_mk (epoch_at es i) in
   match o with
   | OSign target replace fail signers =>
@@ -332,13 +400,25 @@ Definition run_op (st : cstate) (o : op) : cstate * obs :=
     let (b, ins') := lib_tx_verify_run svi (cs_ins st) in
     ({| cs_ins := ins'; cs_epochs := es |}, ObsVerify b (map (@si_valid cbody) ins') (matrix_of es ins'))
   | ORound =>
-    let copy := lib_roundtrip_tx (cs_ins st) in
-    let (b, ins') := lib_tx_verify_run svi copy in
+    let copy := lib_roundtrip_tx c_carried fixed (cs_ins st) in
+    let (b, ins') := lib_tx_verify_run (c_svi es copy) copy in
     (st, ObsVerify b (map (@si_valid cbody) ins') (matrix_of es ins'))
+  | ORoundHt patches =>
+    let copy := lib_roundtrip_tx c_carried fixed (fold_right patch_ht (cs_ins st) patches) in
+    let (b, ins') := lib_tx_verify_run (c_svi es copy) copy in
+    (st, ObsVerify b (map (@si_valid cbody) ins') (matrix_of es ins'))
+  | OCtor patches =>
+    let copy := map (lib_ctor_input c_carried) (fold_right patch_ht (cs_ins st) patches) in
+    let (b, ins') := lib_tx_verify_run (c_svi es copy) copy in
+    (st, ObsVerify b (map (@si_valid cbody) ins') (matrix_of es ins'))
+  | OPlace i ht ks =>
+    ({| cs_ins := update_at i (fun x => with_sigs x
+                     (map (fun k => {| body := c_mk_ht (epoch_at es i) ht k; tag := Some k |}) ks)) (cs_ins st);
+        cs_epochs := es |}, ObsNone)
   | OEpochs es' => ({| cs_ins := cs_ins st; cs_epochs := es' |}, ObsNone)
   | OHashOk i b =>
     ({| cs_ins := update_at i (fun x => {| si_segwit := si_segwit x; si_keys := si_keys x; si_m := si_m x; si_sigs := si_sigs x;
-                                            si_valid := si_valid x; si_hash_ok := b |}) (cs_ins st);
+                                            si_valid := si_valid x; si_hash_ok := b; si_ht := si_ht x |}) (cs_ins st);
         cs_epochs := es |}, ObsNone)
   | ODrop i pos =>
     ({| cs_ins := update_at i (edit_sigs (fun p l => remove_at p l) pos) (cs_ins st); cs_epochs := es |}, ObsNone)
@@ -358,8 +438,8 @@ Definition run_op (st : cstate) (o : op) : cstate * obs :=
                             (cs_ins st); cs_epochs := es |}, ObsNone)
   | OVar i pos v =>
     ({| cs_ins := update_at i (edit_sigs (fun p l => match nth_error l p with
-                     | Some s => let '(pt, e, v0) := body s in
-                                 if Z.eqb v0 0 then set_nth p {| body := (pt, e, v); tag := tag s |} l else l
+                     | Some s => let '(pt, e, v0, hm, hc) := body s in
+                                 if Z.eqb v0 0 then set_nth p {| body := (pt, e, v, hm, hc); tag := tag s |} l else l
                      | None => l end) pos)
                             (cs_ins st); cs_epochs := es |}, ObsNone)
   | OUntag i pos =>
@@ -368,18 +448,21 @@ Definition run_op (st : cstate) (o : op) : cstate * obs :=
                             (cs_ins st); cs_epochs := es |}, ObsNone)
   end.
 
-Fixpoint run_ops (st : cstate) (ops : list op) : list obs :=
+Fixpoint run_ops (fixed : bool) (st : cstate) (ops : list op) : list obs :=
   match ops with
   | [] => []
-  | o :: r => let (st', ob) := run_op st o in ob :: run_ops st' r
+  | o :: r => let (st', ob) := run_op fixed st o in ob :: run_ops fixed st' r
   end.
 
 Definition init_input (segwit : bool) (keys : list Z) (m : nat) : @sinput cbody :=
-  {| si_segwit := segwit; si_keys := dedup_keys [] keys; si_m := m; si_sigs := []; si_valid := None; si_hash_ok := true |}.
+  {| si_segwit := segwit; si_keys := dedup_keys [] keys; si_m := m; si_sigs := []; si_valid := None; si_hash_ok := true;
+     si_ht := 1%Z |}.
 
-Definition run_scenario (inputs : list (bool * list Z * nat)) (ops : list op) : list obs :=
-  run_ops {| cs_ins := map (fun skm => init_input (fst (fst skm)) (snd (fst skm)) (snd skm)) inputs;
+(* [fixed = false]: the parse path as it was before fix C02-5 *)
+Definition run_scenario_at (fixed : bool) (inputs : list (bool * list Z * nat)) (ops : list op) : list obs :=
+  run_ops fixed {| cs_ins := map (fun skm => init_input (fst (fst skm)) (snd (fst skm)) (snd skm)) inputs;
              cs_epochs := repeat 0%Z (length inputs) |} ops.
+Definition run_scenario := run_scenario_at true.
 
 (* ---------- sign_then_verify, as a statement (proved in Proofs/SignPlaceSeq.v: sign_then_verify_thm; the general
    form with replace_signatures, fail_on_unknown_key and verifications between the calls is Model/SignSeq.v +
